@@ -338,6 +338,17 @@ EXTRA14 = {
     'C20': "A phase in which the node's own greeting has gone out and the peer never greets; oracle: nothing sent by a connection that never greeted takes effect.",
 }
 
+# additions of the fifteenth wave
+EXTRA15 = {
+    'C01': "Two outputs of one key spent in one transaction with a bad signature (another key's, garbage, a copy of the first) on the later input.",
+    'C06': "Blocks on both sides of and at retarget boundaries under the period seam (the block that starts a period is checked like any other).",
+    'C08': "A chain whose time stamps do not increase (children older than their parents, equal stamps, a fork): parents still come back first.",
+    'C12': "After a head change that keeps a transaction pending, another spend of the same output is submitted before the next work request.",
+    'C15': "Saves interrupted by an exception (KeyboardInterrupt, ENOSPC) raised at every write boundary in turn: whatever the unwinding runs, the file is the previous or the new wallet.",
+    'C18': "Thread schedules (bound 1 / 2): a recorded block re-validated in full with the real scrypt, and the recorded ids recomputed from the fields, while another thread encodes recorded blocks.",
+    'C20': "An unappliable block whose parent is not yet known, followed by an honest peer delivering that parent (the honest peer stays connected); a list count replaced by 3,000,000 VLQ continuation octets (watchdog).",
+}
+
 NOT_YET = "check not built yet in this revision of /verif (work in progress; see DESIGN.md section 4)"
 
 ALL = ['C%02d' % i for i in range(1, 21)]
@@ -357,6 +368,8 @@ def main():
             text = text.rstrip() + ' ' + EXTRA13[pid]
         if pid in EXTRA14:
             text = text.rstrip() + ' ' + EXTRA14[pid]
+        if pid in EXTRA15:
+            text = text.rstrip() + ' ' + EXTRA15[pid]
         checks.append({
             'property_id': pid,
             'quick_cmd': './check %s --tier quick' % pid,
